@@ -80,7 +80,7 @@ class Shapes:
         return r
 
     def _of(self, s0):
-        s = strip_cv_top(s0.strip())
+        s = strip_cv_top(s0.strip()).replace('(anonymous namespace)', '(anon)')
         if s.endswith('&&'):
             return ('ref', self.of(s[:-2]))
         if s.endswith('&'):
